@@ -239,8 +239,16 @@ def channels(check, prog):
                                                        else None))
     check.require(ok, 'S2-by-label', 'channel schema',
                   'per-channel schema = update_metadata(schema, ...)', loc)
-    ok = tsc == ('call', IFM + 'select_scatterer_by_illumination',
-                 (sym('scatterer'), e), ())
+    ok = tsc is not None and tsc[0] == 'call' and \
+        tsc[1] == IFM + 'select_scatterer_by_illumination' and \
+        tsc[2][:2] == (sym('scatterer'), e) and not tsc[3] and all(
+            # (further arguments: this channel's own values, nothing else)
+            a_ == ('attr', ts, 'illum_wavelen') or
+            a_ == ('attr', ts, 'illum_polarization') or (
+                any(x == sel_of('illum_wavelen') for x in subterms(a_)) and not any(
+                    x[0] == 'call' and isinstance(x[1], tuple) and x[1][2:] == ('sel',)
+                    and x != sel_of('illum_wavelen')[1] for x in subterms(a_)))
+            for a_ in tsc[2][2:])
     check.require(ok, 'S2-by-label', 'channel scatterer',
                   "this channel's scatterer values are selected by the channel label",
                   loc, fail_detail='scatterer = %s' % (show(tsc)[:160] if tsc else None))
@@ -592,23 +600,55 @@ def illumination_preparation(check, prog):
             t == ('call', 'numpy.tile', (wl, nchan), ())
     bad = []
     rows = 0
-    for many, twod, inpol, isda, one, indet, same in itertools.product(
-            (True, False), repeat=7):
+    dl = intern(('attr', D, 'illumination'))
+
+    def by_wavelength(t):
+        # a test that the detector's channel labels are these wavelengths
+        # themselves (a comparison or all / any / set expression over both)
+        return t[0] in ('call', 'cmp') and not any(match(t, a) for a in (
+            a_many, a_2d, a_pol, a_da, a_one, a_det, a_same)) and \
+            any(x == wl for x in subterms(t)) and any(x == dl for x in subterms(t)) \
+            and not any(x[0] == 'call' and x[1] == 'len' for x in subterms(t)
+                        if x is not t)
+    pl = intern(('attr', pol, 'illumination'))
+
+    def by_polarisation(t):
+        # a test that the detector's channels are the polarisation's channels
+        # (same number, same labels): any test over both label sets and nothing
+        # else of the schema
+        return t[0] in ('call', 'cmp') and not any(match(t, a) for a in (
+            a_many, a_2d, a_pol, a_da, a_one, a_det, a_same)) and \
+            any(x == pl for x in subterms(t)) and any(x == dl for x in subterms(t)) \
+            and not any(x == wl for x in subterms(t))
+    for many, twod, inpol, isda, one, indet, same, own, perm in itertools.product(
+            (True, False), repeat=9):
         if many and one:
             continue                      # len > 1 and len == 1 cannot both hold
         if same and not indet:
             continue                      # no channels to be as many as
+        if own and not same:
+            continue                      # the same labels are as many
+        if perm and not (indet and inpol):
+            continue                      # two label sets to compare
+        if perm and not isda and not one and not same:
+            continue                      # (as many wavelengths as polarisations)
         val = {a_many: many, a_2d: twod, a_pol: inpol, a_da: isda, a_one: one,
                a_det: indet, a_same: same}
 
-        def hyp(t):
+        def hyp(t, own=own):
             for a, b in val.items():
                 if match(t, a):
                     return b
+            if by_wavelength(t):
+                return own
+            if by_polarisation(t):
+                return perm
             return None
         row = 'len(wavelen)>1=%s, polarization 2-d=%s, polarization has channels=%s, ' \
             'wavelen is labelled=%s, len(wavelen)==1=%s, detector has channels=%s, ' \
-            'as many as wavelengths=%s' % (many, twod, inpol, isda, one, indet, same)
+            'as many as wavelengths=%s, labelled by them=%s, polarisations name ' \
+            'the detector\'s channels=%s' % (
+                many, twod, inpol, isda, one, indet, same, own, perm)
         leaf = select(v, hyp)
         rows += 1
         if leaf is None:
@@ -642,15 +682,23 @@ def illumination_preparation(check, prog):
             bad.append(row + ': detector handed on as ' + show(X)[:80])
         if isda:
             okw = W == wl
+        elif inpol and perm:
+            # the polarisations name the detector's channels: positional
+            # wavelengths follow the detector's order, not the order in which
+            # the polarisations happen to be stored (a dictionary's comes back
+            # sorted by key)
+            okw = labelled(W, repeated if one else (lambda t: t == wl), dl) or \
+                labelled(W, repeated if one else (lambda t: t == wl),
+                         intern(('attr', dl, 'values')))
         elif inpol:
-            okw = labelled(W, repeated if one else (lambda t: t == wl),
-                           intern(('attr', pol, 'illumination')))
-        elif indet and same:
+            okw = labelled(W, repeated if one else (lambda t: t == wl), pl) or \
+                labelled(W, repeated if one else (lambda t: t == wl),
+                         intern(('attr', pl, 'values')))
+        elif indet and same and not own:
             # positional wavelengths for a detector that has as many channels: the
             # result has to lie on the detector's channel labels, or nothing that
             # is aligned with the data by label (residuals, per-channel scaling
             # and noise) finds its channel
-            dl = intern(('attr', D, 'illumination'))
             okw = labelled(W, lambda t: t == wl, dl) or \
                 labelled(W, lambda t: t == wl, intern(('attr', dl, 'values')))
         else:
